@@ -92,7 +92,7 @@ def run(c):
     c.cov["rule"] = ("distinct = different Coq case term (application specs, operations, observations); non-trivial = some "
                      "application was started and some run ended with a Terminate callback")
     c.assumptions += [
-        "sequential histories are observed at quiescence (bounded wait for the state the model predicts, then a stability window); "
+        "sequential histories are observed at quiescence (bounded wait for the state the model predicts and for the Terminate callbacks of the runs that ended, then a stability window); "
         "ApplicationStopForce may report ErrApplicationStopping for an already stopped application (timeout 0): both results accepted",
         "the Terminate callback of a rolled-back start (timing dependent, Start never ran) is outside the comparison",
         "small-step model: one application; application.start is a thread program (CAS + initialisation one step, then one spawn "
